@@ -6,13 +6,13 @@ RANDOM_CLAUSES_C18 = ["C18_Due", "C18_Once", "C18_Range", "C18_Pure", "C18_Stabl
 C13_CLAUSES_RANDOM = ["C13_QueueSound_Random", "C13_QueueComplete_Random", "C13_OnceOnTime_Random", "C13_NoHalt"]
 
 RANDOM_RND = T(
-    [dict(n=10, len=25, procs=6, cfg="users=3,provs=2,funds=25,timeout=2"),
-     dict(n=10, len=30, procs=6, cfg="users=2,provs=1,funds=35,timeout=3,maxn=4"),
-     dict(n=6, len=30, procs=2, cfg="users=3,provs=1,bound=0,funds=25,timeout=2,zh=1")],
+    [dict(n=8, len=25, procs=6, cfg="users=3,provs=2,funds=25,timeout=2"),
+     dict(n=8, len=25, procs=6, cfg="users=2,provs=1,funds=35,timeout=3,maxn=4"),
+     dict(n=5, len=25, procs=2, cfg="users=3,provs=1,bound=0,funds=25,timeout=2,zh=1")],
     [dict(n=60, len=30, procs=7, cfg="users=3,provs=2,funds=25,timeout=2"),
      dict(n=60, len=40, procs=7, cfg="users=4,provs=1,funds=35,timeout=3,maxn=5"),
      dict(n=30, len=40, procs=4, cfg="users=3,provs=1,bound=0,funds=25,timeout=2,zh=1")])
-RANDOM_GEN = T([dict(cfg="GEN_Random.cfg", num=20, depth=22, seeds=12)],
+RANDOM_GEN = T([dict(cfg="GEN_Random.cfg", num=16, depth=22, seeds=10)],
                [dict(cfg="GEN_Random.cfg", num=60, depth=26, seeds=14)])
 RANDOM_MC = T([dict(cfg="MC_Random.cfg", timeout=1500),
                # restart from a zero-height export (model-level PrepForZeroHeightGenesis / export / import)
